@@ -30,12 +30,21 @@ var c06Cmds = []c06Cmd{
 	{"streamstats count", "keep", true}, {"streamstats window=2 sum(b) as sb", "keep", true},
 	{`makemv delim="," m`, "keep", false}, {"mvexpand m", "keep", false},
 	{"stats count by a", "set", true}, {"stats sum(b), count", "set", true}, {"stats count, max(b) by m", "set", true},
+	// option variants of the stateful commands (a limit with a condition, limits on sort, two-pass forms, per-group state)
+	{"head limit=2 (b>0)", "keep", true}, {"head (a<3) keeplast=true", "keep", true}, {"tail 1", "keep", true},
+	{"sort 2 -b", "sorts", true}, {"dedup a keepempty=true", "keep", true}, {"dedup a consecutive=true", "keep", true},
+	{"fillnull", "keep", true}, {"eventstats sum(b) as tb", "keep", true}, {"eventstats count as n by a", "keep", true},
+	{"streamstats sum(b) as rb by a", "keep", true}, {"streamstats current=f count as pc", "keep", true},
+	{"stats dc(a), values(m)", "set", true}, {"stats first(b), last(b)", "set", true},
 }
 
 type c06Job struct {
 	Chain   []string                 `json:"chain"`
 	Table   []map[string]interface{} `json:"table"`
 	NStream int                      `json:"streams"`
+	// Parallel k > 1: the chains are built by the real SetupQueryParallelism for k processors; the rows are distributed
+	// over the k chains in every possible way (each batch of the searcher goes to exactly one chain in production)
+	Parallel int `json:"parallel,omitempty"`
 }
 
 var c06RowAlphabet = []map[string]interface{}{
@@ -87,6 +96,7 @@ type pipeRes struct {
 	Measure  []QBucket                `json:"measure"`
 	ParseErr string                   `json:"parseErr"`
 	RunErr   string                   `json:"runErr"`
+	Chains   int                      `json:"chains"`
 }
 
 func (p *pipeRes) canon(ordered bool) string {
@@ -183,6 +193,84 @@ func c06Run(w *kernel.Worker, j *c06Job, rep *kernel.Report) (*Fail, error) {
 	if strings.Contains(query, "streamstats window=") {
 		cls = "streamstats-window" // one root cause: the window is not carried across batches
 	}
+	if j.Parallel > 1 {
+		// order: defined by the merger when the chain starts with a sort; otherwise the interleaving of the chains'
+		// outputs is arbitrary, so only chains of order-insensitive commands are compared (as multisets)
+		sorted := c06Find(j.Chain[0]).Order == "sorts"
+		if !sorted {
+			for _, c := range j.Chain {
+				f := strings.Fields(c)[0]
+				if f == "head" || f == "tail" || f == "streamstats" || f == "dedup" || f == "sort" || strings.Contains(c, "first(") {
+					return nil, nil
+				}
+			}
+			ordered = false
+			want = ref.canon(false)
+		}
+		for mask := 0; mask < 1<<n; mask++ {
+			parts := make([][]map[string]interface{}, j.Parallel)
+			ok := true
+			for i := range j.Table {
+				k := 0
+				if mask&(1<<i) != 0 {
+					k = 1
+				}
+				if j.Parallel > 2 && i%3 == 2 && mask&(1<<i) != 0 {
+					k = 2
+				}
+				parts[k] = append(parts[k], j.Table[i])
+			}
+			for variant := 0; variant < 2 && ok; variant++ {
+				// variant 0: every chain receives its rows as one batch; 1: one row per batch
+				streams := make([][][]map[string]interface{}, j.Parallel)
+				for k, rows := range parts {
+					if variant == 0 {
+						if len(rows) > 0 {
+							streams[k] = [][]map[string]interface{}{rows}
+						}
+					} else {
+						for _, r := range rows {
+							streams[k] = append(streams[k], []map[string]interface{}{r})
+						}
+					}
+				}
+				var got pipeRes
+				err := w.Call("pipeline", map[string]interface{}{"query": query, "cols": cols, "streams": streams, "parallel": j.Parallel}, &got)
+				rep.Eval(1)
+				if err != nil {
+					return die(err)
+				}
+				if got.Chains <= 1 && got.ParseErr == "" && got.RunErr == "" {
+					rep.Add("chains_not_parallelised", 1)
+					return nil, nil
+				}
+				if g := got.canon(ordered); g != want {
+					fp := "C06/parallel/" + cls
+					if cls == "streamstats-window" {
+						fp = "C06/batching/streamstats-window" // same root cause as under batching: the window is not carried over
+					} else {
+						spread := 0
+						for _, rows := range parts {
+							if len(rows) > 0 {
+								spread++
+							}
+						}
+						if spread <= 1 {
+							fp += "/all-rows-in-one-chain"
+						} else {
+							fp += "/rows-in-several-chains"
+						}
+						fp += []string{"/one-batch-per-chain", "/one-row-per-batch"}[variant]
+					}
+					fs.Add(fp, fmt.Sprintf("query=%q table=%s\n  one chain, one batch: %s\n  %d chains, rows distributed %v (%s): %s", query, jstr(j.Table), want, j.Parallel, jstr(parts),
+						[]string{"one batch per chain", "one row per batch"}[variant], g))
+				} else {
+					rep.Nontrivial(query + "|" + jstr(j.Table) + fmt.Sprintf("|par%d|%d|%d", j.Parallel, mask, variant))
+				}
+			}
+		}
+		return fs.Result(), nil
+	}
 	if j.NStream <= 1 {
 		for _, comp := range compositions(n) {
 			for variant := 0; variant < 3; variant++ {
@@ -267,11 +355,12 @@ func c06Names(chain []string) []string {
 
 func C06() int {
 	rep := kernel.NewReport("C06", "exploration")
-	rep.Rule = "every command alone and every ordered pair of commands (27 instances: where, eval, fields, rename, fillnull, rex, regex, dedup×3, " +
-		"head, tail, sort, top, rare, bin, streamstats×2, makemv, mvexpand, stats×3; parsed by the real SPL parser, built by AggsToDataProcessors) " +
+	rep.Rule = "every command alone and every ordered pair of commands (40 instances: where, eval, fields, rename, fillnull×2, rex, regex, dedup×5, " +
+		"head×4 (plain, with condition, keeplast), tail×2, sort×3, top, rare, bin, streamstats×4, eventstats×2, makemv, mvexpand, stats×5; parsed by the real SPL parser, built by AggsToDataProcessors) " +
 		"× tables of ≤ n rows over a 6-row alphabet × every composition of the rows into successive batches, with EOF-with-data and an " +
 		"inserted empty batch, output must equal the single-batch output " +
-		"(as a sequence unless the chain contains stats/top/rare). non-trivial = ≥2 batches (or 2 streams) and a command with cross-batch state"
+		"(as a sequence unless the chain contains stats/top/rare). Parallel chains: the same commands and pairs with the chains built by the real SetupQueryParallelism for 2 (thorough: 3) " +
+		"processors, rows distributed over the chains in every way × {one batch per chain, one row per batch}, output must equal the single-chain output. non-trivial = ≥2 batches (or 2 streams) and a command with cross-batch state"
 	rep.Assume = []string{"input order = table order; column b is unique and increasing, so sort keys have no ties", "no storage involved: harness Streamer feeds the first processor"}
 	pool := logPool()
 	pool.RecycleEvery = 5000
@@ -303,6 +392,9 @@ func C06() int {
 							continue // group order after stats/top/rare is undefined, so order-sensitive successors have no defined output
 						}
 					}
+					if strings.HasPrefix(c1.Text, "bin ") && strings.HasPrefix(c2.Text, "sort 2") {
+						continue // bin makes the sort key tie; which of the tied rows survives a sort limit is not defined
+					}
 					for _, t := range fixed {
 						emit(c06Job{Chain: []string{c1.Text, c2.Text}, Table: t, NStream: 1})
 					}
@@ -313,11 +405,30 @@ func C06() int {
 					}
 				}
 			}
+			// parallel chains: every single command and every pair, rows distributed over 2 (thorough: also 3) chains
+			for _, c := range c06Cmds {
+				for _, t := range fixed {
+					emit(c06Job{Chain: []string{c.Text}, Table: t, NStream: 1, Parallel: 2})
+				}
+			}
+			for _, c1 := range c06Cmds {
+				for _, c2 := range c06Cmds {
+					if strings.HasPrefix(c1.Text, "bin ") && strings.HasPrefix(c2.Text, "sort 2") {
+						continue
+					}
+					for _, t := range fixed {
+						emit(c06Job{Chain: []string{c1.Text, c2.Text}, Table: t, NStream: 1, Parallel: 2})
+						if rep.Tier == "thorough" {
+							emit(c06Job{Chain: []string{c1.Text, c2.Text}, Table: t, NStream: 1, Parallel: 3})
+						}
+					}
+				}
+			}
 			rep.Bounds["commands"] = len(c06Cmds)
 			rep.Bounds["max_table_len_single"] = maxLen
 		},
 		Run:        c06Run,
-		Key:        func(j *c06Job) string { return fmt.Sprint(j.Chain, jstr(j.Table), j.NStream) },
+		Key:        func(j *c06Job) string { return fmt.Sprint(j.Chain, jstr(j.Table), j.NStream, j.Parallel) },
 		Nontrivial: func(j *c06Job) bool { return false },
 	}
 	d.Drive()
